@@ -48,16 +48,20 @@ var c13IDTokens = map[string]string{}
 func c13Script(idp *IdP) {
 	now := time.Now()
 	base := func() map[string]any {
-		return map[string]any{"iss": idpIssuer, "aud": "rdpgw", "sub": "subject-1", "exp": now.Add(time.Hour).Unix(), "iat": now.Add(-time.Minute).Unix()}
+		iss := idp.Issuer
+		if iss == "" {
+			iss = idpIssuer
+		}
+		return map[string]any{"iss": iss, "aud": "rdpgw", "sub": "subject-1", "exp": now.Add(time.Hour).Unix(), "iat": now.Add(-time.Minute).Unix()}
 	}
 	mk := func(name string, f func(m map[string]any), wrongKey bool) string {
-		if t, ok := c13IDTokens[name]; ok {
+		if t, ok := c13IDTokens[idp.Issuer+"|"+name]; ok {
 			return t
 		}
 		m := base()
 		f(m)
 		t := idp.IDToken(m, wrongKey)
-		c13IDTokens[name] = t
+		c13IDTokens[idp.Issuer+"|"+name] = t
 		return t
 	}
 	for _, k := range []string{"preferred_username", "unique_name", "upn", "username"} {
@@ -189,7 +193,7 @@ func c13Run(store string, hist []c13Op, rep *Report) (viol, detail string, trace
 func c13(env *Env, rep *Report) {
 	alpha := c13Alphabet()
 	rep.Rule = fmt.Sprintf("(1) every browser history up to depth d over a %d-operation alphabet {GET /connect from browser A, from browser B, clock +121 s, GET /callback in browser A with state in {issued to A, issued to B, never issued, issued before the last clock jump} x code behaviour in {valid ID token carrying the user name under preferred_username / unique_name / upn / username, IdP refuses the code, no id_token, signature by another key, wrong issuer, wrong audience, expired, no user-name claim}} against the real router pieces (EnrichContext, Authenticated, HandleCallback, HandleDownload) with a scripted IdP, for the cookie store (quick d=3) and the file store (quick d=2; thorough 4 and 3); after every step both browsers are observed and compared with the reference (authenticated iff some callback passed every check with a state issued <= 120 s ago; user == claim). "+
-		"(2) every single-character substitution and truncation of a valid authenticated session cookie, a cookie of an instance with other keys, and (file store) a valid cookie whose file was deleted never observe an authenticated session. (3) identity contents {user names incl. e-mail, non-ASCII, 300 characters} x X-Forwarded-For chains {none,1,3} x access tokens up to 3 KiB are restored field by field on the next request. (4) two browsers logging in concurrently, the session store wrapped so that entering Save is a scheduling point: every schedule up to preemption bound 2, both stores; each browser's session must restore its own identity. distinct_nontrivial = histories + cookies + identities + schedules evaluated.", len(alpha))
+		"(5) the same callbacks against the real rdpgw binary (main()'s provider, verifier and oauth2 wiring) with a loopback IdP: {state issued to this browser, to another browser, never issued} x the 11 code behaviours, both session stores; thorough adds a state that is 125 s old in real time. (2) every single-character substitution and truncation of a valid authenticated session cookie, a cookie of an instance with other keys, and (file store) a valid cookie whose file was deleted never observe an authenticated session. (3) identity contents {user names incl. e-mail, non-ASCII, 300 characters} x X-Forwarded-For chains {none,1,3} x access tokens up to 3 KiB are restored field by field on the next request. (4) two browsers logging in concurrently, the session store wrapped so that entering Save is a scheduling point: every schedule up to preemption bound 2, both stores; each browser's session must restore its own identity. distinct_nontrivial = histories + cookies + identities + schedules evaluated.", len(alpha))
 	rep.Assumptions = append(rep.Assumptions, "the state store's clock is the harness clock (go-cache copy); the session cookie's own 120 s lifetime is enforced by securecookie against real time and is not advanced",
 		"a state value issued to another browser or used twice is not excluded by the property and is treated as issued")
 	if env.Replay != nil && env.Replay["concurrent"] != nil {
@@ -284,6 +288,9 @@ func c13(env *Env, rep *Report) {
 	distinct += c13Cookies(env, rep, &n)
 	distinct += c13Identities(env, rep, &n)
 	distinct += c13Conc(env, rep)
+	if gwBin() != "" {
+		distinct += bindOIDC(rep, env)
+	}
 	rep.add("distinct", int64(distinct))
 	rep.add("states", int64(distinct))
 }
